@@ -17,6 +17,22 @@ PROPS = {
         "explanation": "Contracts on DhtKey::distance, KademliaRoutingTable::{get_bucket_index,get_bucket_index_for_key,add_node,remove_node,find_closest_nodes}.",
         "jobs": {"quick": 6, "thorough": 6},
     },
+    "C04": {
+        "verus_units": ["pending"],
+        "trusted": COMMON_TRUSTED,
+        "assumptions": [
+            "sequential semantics per critical section: each of the three sections runs under one lock guard (std::sync::Mutex for active_operations, tokio::sync::RwLock for active_requests); that the guard serialises tasks is the lock's contract (assumed)",
+            "HashMap<String, V> as a finite map (shims), String comparison by character sequence, oneshot::Sender::send consumes the sender",
+        ],
+        "clauses_not_decided": [
+            "'every request completes exactly once -- with its reply, a timeout or a send error -- and afterwards nothing of it remains in the pending tables, whatever the interleaving': the timeout / cleanup paths (send_request's removal after the wait, wait_for_response, sweep_expired_operations) are async code with awaits between the steps; no interleaving is explored",
+            "the cap on pending DHT operations and the DhtCoreEngine pending_requests LRU (10_000)",
+            "that handle_dht_response / the /rr/ branch are the only places that complete a pending request (call-graph argument, not a contract)",
+            "no native failing-input search exists for this unit (the functions need a live DhtNetworkManager / a spawned receive loop): a failed obligation is reported with no-failing-input-found",
+        ],
+        "explanation": "Verus proves, on three critical sections outlined verbatim from handle_dht_response, the /rr/ reply branch of the receive loop and send_request: a reply completes a pending request only if it carries that request's id and comes from the contacted / expected peer (and, for DHT RPCs, carries a result); the waiting sender is consumed at most once; no other pending entry is touched; registration is refused at the cap of 256 and leaves nothing behind.",
+        "jobs": {"quick": 2, "thorough": 2},
+    },
     "C05": {
         "verus_units": ["inbound"],
         "trusted": COMMON_TRUSTED,
@@ -76,7 +92,7 @@ PROPS = {
         "jobs": {"quick": 6, "thorough": 6},
     },
     "C14": {
-        "verus_units": [],
+        "verus_units": ["ratelim"],
         "trusted": COMMON_TRUSTED,
         "assumptions": [
             "history-level bounds (admitted <= burst + sum of refills; admitted per window <= max) follow from the per-call contract by induction; the step from per-call float inequalities to a sum over calls treats refill sums as real numbers (rounding slack 1e-9 relative per call is allowed in the contract)",
